@@ -179,8 +179,14 @@ class FakeTimeModule:
 
     def __init__(self, wall: WallClock):
         self._wall = wall
+        self.ticks = ()         # scripted: the k-th read finds the clock advanced by ticks[k] us (time passes between reads)
+        self.reads = 0
 
     def time(self):
+        k = self.reads
+        self.reads += 1
+        if k < len(self.ticks) and self.ticks[k]:
+            self._wall.jump(self.ticks[k])
         # +0.3 ms-fraction guard so that int(t * 1000) is the intended millisecond despite binary
         # floating point; only applied when the clock granularity is a whole millisecond.
         us = self._wall.now_us()
